@@ -1,6 +1,7 @@
 import WebAuthnModel.Spec.Attestation
 import WebAuthnModel.Theorems.C12
 import WebAuthnModel.Proofs.JwsLemmas
+import WebAuthnModel.Proofs.X509SigLemmas
 /-
   C03 — what each signed attestation format binds.
   (1) the signed / hashed message formats are injective (for all lengths);
@@ -100,7 +101,7 @@ theorem certs_ok_x5c (env : Prog.Env) (stmt : List (Bytes × Cbor.Value)) (cs)
 
 theorem packedCert_sig (env : Prog.Env) (o : AttObj) (h der : Bytes) (c : CertView)
     (hr : Prog.run env (verifyPackedCert o h der c) = true) :
-    env.answer (.x509CheckSig der (Cose.algX509 (getAlgorithm o.stmt)) (o.authData ++ h) (getSignature o.stmt)) = .bool true := by
+    X509Sig.Checked env der c.key (Cose.algX509 (getAlgorithm o.stmt)) (o.authData ++ h) (getSignature o.stmt) := by
   unfold verifyPackedCert at hr
   split at hr
   · simp at hr
@@ -108,7 +109,7 @@ theorem packedCert_sig (env : Prog.Env) (o : AttObj) (h der : Bytes) (c : CertVi
     split at hr
     · simp at hr
     · rename_i hb
-      rw [← run_askBool]
+      rw [← X509SigLemmas.run_certCheckSig]
       simpa using hb
 
 theorem packedSelf_sig (env : Prog.Env) (o : AttObj) (h : Bytes)
@@ -135,7 +136,7 @@ theorem packed_x5c_core (env : Prog.Env) (o : AttObj) (h : Bytes) (res : Result)
     (hx : Cbor.stmtGet o.stmt "x5c" ≠ none) (hr : Prog.run env (verifyPacked o h) = some res) :
     ∃ der c rest, Prog.run env (unmarshalCertificates o.stmt) = .ok ((der, c) :: rest) ∧
       res = ⟨"Unknown", der :: rest.map (·.1)⟩ ∧
-      env.answer (.x509CheckSig der (Cose.algX509 (getAlgorithm o.stmt)) (o.authData ++ h) (getSignature o.stmt)) = .bool true := by
+      X509Sig.Checked env der c.key (Cose.algX509 (getAlgorithm o.stmt)) (o.authData ++ h) (getSignature o.stmt) := by
   unfold verifyPacked at hr
   simp only [Prog.run_bind, Prog.run_pure, run_ite] at hr
   split at hr
@@ -174,7 +175,7 @@ theorem u2f_core (env : Prog.Env) (o : AttObj) (h : Bytes) (res : Result)
     (hr : Prog.run env (verifyU2F o h) = some res) :
     ∃ der c d acd alg crv x y, Prog.run env (unmarshalCertificates o.stmt) = .ok [(der, c)] ∧ res = ⟨"Unknown", [der]⟩ ∧
       attestedAuthData o = some (d, acd) ∧ credentialKey acd = some (.ec2 alg crv x y) ∧
-      env.answer (.x509CheckSig der (Cose.algX509 alg) (u2fMessage d.rpIdHash h acd.credentialId x y) (getSignature o.stmt)) = .bool true := by
+      X509Sig.Checked env der c.key (Cose.algX509 alg) (u2fMessage d.rpIdHash h acd.credentialId x y) (getSignature o.stmt) := by
   unfold verifyU2F at hr
   simp only [Prog.run_bind] at hr
   split at hr
@@ -188,7 +189,7 @@ theorem u2f_core (env : Prog.Env) (o : AttObj) (h : Bytes) (res : Result)
           simp only [Prog.run_bind, Prog.run_pure, run_ite] at hr
           split at hr
           · rename_i hb
-            exact ⟨der, c, d, acd, alg, crv, x, y, hc, by simpa using hr.symm, hd, hk, (run_askBool _ _).1 hb⟩
+            exact ⟨der, c, d, acd, alg, crv, x, y, hc, by simpa using hr.symm, hd, hk, (X509SigLemmas.run_certCheckSig ..).1 hb⟩
           · simp at hr
         · simp at hr
     · simp at hr
@@ -198,7 +199,7 @@ theorem androidKey_core (env : Prog.Env) (o : AttObj) (h : Bytes) (res : Result)
     (hr : Prog.run env (verifyAndroidKey o h) = some res) :
     ∃ der c rest, Prog.run env (unmarshalCertificates o.stmt) = .ok ((der, c) :: rest) ∧
       res = ⟨"Basic", der :: rest.map (·.1)⟩ ∧
-      env.answer (.x509CheckSig der (Cose.algX509 (getAlgorithm o.stmt)) (o.authData ++ h) (getSignature o.stmt)) = .bool true := by
+      X509Sig.Checked env der c.key (Cose.algX509 (getAlgorithm o.stmt)) (o.authData ++ h) (getSignature o.stmt) := by
   unfold verifyAndroidKey at hr
   simp only [Prog.run_bind] at hr
   split at hr
@@ -211,7 +212,7 @@ theorem androidKey_core (env : Prog.Env) (o : AttObj) (h : Bytes) (res : Result)
         split at hr
         · simp at hr
         · rename_i hb
-          refine ⟨der, c, rest, hc, ?_, by rw [← run_askBool]; simpa using hb⟩
+          refine ⟨der, c, rest, hc, ?_, by rw [← X509SigLemmas.run_certCheckSig]; simpa using hb⟩
           split at hr
           · simp at hr
           · split at hr
@@ -295,7 +296,7 @@ theorem tpm_core (env : Prog.Env) (o : AttObj) (h : Bytes) (res : Result)
       stmtBytes o.stmt "certInfo" = some ciRaw ∧ Tpm2.certInfo (Prog.run env askHashes) ciRaw = some ci ∧
       env.answer (.hash (Cose.algHash (getAlgorithm o.stmt)) (o.authData ++ h)) = .bytes ci.extraData ∧
       ci.encoded = some ciEnc ∧
-      env.answer (.x509CheckSig der (Cose.algX509 (getAlgorithm o.stmt)) ciEnc (getSignature o.stmt)) = .bool true := by
+      X509Sig.Checked env der c.key (Cose.algX509 (getAlgorithm o.stmt)) ciEnc (getSignature o.stmt) := by
   unfold verifyTPM at hr
   rw [Prog.run_bind] at hr
   cases hc : Prog.run env (unmarshalCertificates o.stmt) with
@@ -371,7 +372,7 @@ theorem tpm_core (env : Prog.Env) (o : AttObj) (h : Bytes) (res : Result)
           obtain ⟨der, c⟩ := p
           dsimp only at hr
           obtain ⟨hsig, hr⟩ := run_guardM _ _ _ _ hr
-          rw [run_askBool] at hsig
+          rw [X509SigLemmas.run_certCheckSig] at hsig
           obtain ⟨-, hr⟩ := run_guard _ _ _ _ hr
           obtain ⟨-, hr⟩ := run_guard _ _ _ _ hr
           obtain ⟨-, hr⟩ := run_guard _ _ _ _ hr
@@ -382,44 +383,6 @@ theorem tpm_core (env : Prog.Env) (o : AttObj) (h : Bytes) (res : Result)
     | none => rw [hpav] at hr; cases hr
   | none => rw [hciv] at hr; cases hr
 /-! ### user-facing binding statements -/
-
-theorem packed_x5c_binding (env : Prog.Env) (o : AttObj) (h : Bytes) (res : Result)
-    (hx : Cbor.stmtGet o.stmt "x5c" ≠ none) (hr : Prog.run env (verifyPacked o h) = some res) :
-    ∃ der rest, res.x5c = der :: rest ∧
-      env.answer (.x509CheckSig der (Cose.algX509 (getAlgorithm o.stmt)) (o.authData ++ h) (getSignature o.stmt)) = .bool true := by
-  obtain ⟨der, c, rest, -, rfl, hs⟩ := packed_x5c_core env o h res hx hr
-  exact ⟨der, _, rfl, hs⟩
-
-theorem packed_self_binding (env : Prog.Env) (o : AttObj) (h : Bytes) (res : Result)
-    (hx : Cbor.stmtGet o.stmt "x5c" = none) (hr : Prog.run env (verifyPacked o h) = some res) :
-    ∃ d acd k sc hh, attestedAuthData o = some (d, acd) ∧ credentialKey acd = some k ∧ Cose.verifyParams k = some (sc, hh) ∧
-      env.answer (.sigVerify sc hh k.material (o.authData ++ h) (getSignature o.stmt)) = .bool true := by
-  obtain ⟨-, d, acd, k, sc, hh, h1, h2, -, h3, h4⟩ := packed_self_core env o h res hx hr
-  exact ⟨d, acd, k, sc, hh, h1, h2, h3, h4⟩
-
-theorem u2f_binding (env : Prog.Env) (o : AttObj) (h : Bytes) (res : Result)
-    (hr : Prog.run env (verifyU2F o h) = some res) :
-    ∃ der d acd alg crv x y, res.x5c = [der] ∧ attestedAuthData o = some (d, acd) ∧ credentialKey acd = some (.ec2 alg crv x y) ∧
-      env.answer (.x509CheckSig der (Cose.algX509 alg) (u2fMessage d.rpIdHash h acd.credentialId x y) (getSignature o.stmt)) = .bool true := by
-  obtain ⟨der, c, d, acd, alg, crv, x, y, -, rfl, h1, h2, h3⟩ := u2f_core env o h res hr
-  exact ⟨der, d, acd, alg, crv, x, y, rfl, h1, h2, h3⟩
-
-theorem androidKey_binding (env : Prog.Env) (o : AttObj) (h : Bytes) (res : Result)
-    (hr : Prog.run env (verifyAndroidKey o h) = some res) :
-    ∃ der rest, res.x5c = der :: rest ∧
-      env.answer (.x509CheckSig der (Cose.algX509 (getAlgorithm o.stmt)) (o.authData ++ h) (getSignature o.stmt)) = .bool true := by
-  obtain ⟨der, c, rest, -, rfl, hs⟩ := androidKey_core env o h res hr
-  exact ⟨der, _, rfl, hs⟩
-
-theorem tpm_binding (env : Prog.Env) (o : AttObj) (h : Bytes) (res : Result)
-    (hr : Prog.run env (verifyTPM o h) = some res) :
-    ∃ der rest ciRaw ci ciEnc, res.x5c = der :: rest ∧ stmtBytes o.stmt "certInfo" = some ciRaw ∧
-      Tpm2.certInfo (Prog.run env askHashes) ciRaw = some ci ∧
-      env.answer (.hash (Cose.algHash (getAlgorithm o.stmt)) (o.authData ++ h)) = .bytes ci.extraData ∧
-      ci.encoded = some ciEnc ∧
-      env.answer (.x509CheckSig der (Cose.algX509 (getAlgorithm o.stmt)) ciEnc (getSignature o.stmt)) = .bool true := by
-  obtain ⟨der, c, rest, ciRaw, ci, ciEnc, -, rfl, h1, h2, h3, h4, h5⟩ := tpm_core env o h res hr
-  exact ⟨der, _, ciRaw, ci, ciEnc, rfl, h1, h2, h3, h4, h5⟩
 
 /-- the certificates reported by `unmarshalCertificates` are the `x509.ParseCertificate` views of their DER bytes -/
 theorem parseCerts_parsed (env : Prog.Env) : ∀ (xs : List Cbor.Value) (cs : List (Bytes × CertView)),
@@ -476,6 +439,46 @@ theorem certs_parsed (env : Prog.Env) (stmt : List (Bytes × Cbor.Value)) (cs : 
         simp only [Prog.run_pure, Certs.ok.injEq] at h
         subst h
         exact parseCerts_parsed env xs cs' hp
+
+theorem packed_x5c_binding (env : Prog.Env) (o : AttObj) (h : Bytes) (res : Result)
+    (hx : Cbor.stmtGet o.stmt "x5c" ≠ none) (hr : Prog.run env (verifyPacked o h) = some res) :
+    ∃ der c rest, res.x5c = der :: rest ∧ env.answer (.x509Parse der) = .cert c ∧
+      X509Sig.Checked env der c.key (Cose.algX509 (getAlgorithm o.stmt)) (o.authData ++ h) (getSignature o.stmt) := by
+  obtain ⟨der, c, rest, hc, rfl, hs⟩ := packed_x5c_core env o h res hx hr
+  exact ⟨der, c, _, rfl, certs_parsed env _ _ hc (der, c) (List.mem_cons_self ..), hs⟩
+
+theorem packed_self_binding (env : Prog.Env) (o : AttObj) (h : Bytes) (res : Result)
+    (hx : Cbor.stmtGet o.stmt "x5c" = none) (hr : Prog.run env (verifyPacked o h) = some res) :
+    ∃ d acd k sc hh, attestedAuthData o = some (d, acd) ∧ credentialKey acd = some k ∧ Cose.verifyParams k = some (sc, hh) ∧
+      env.answer (.sigVerify sc hh k.material (o.authData ++ h) (getSignature o.stmt)) = .bool true := by
+  obtain ⟨-, d, acd, k, sc, hh, h1, h2, -, h3, h4⟩ := packed_self_core env o h res hx hr
+  exact ⟨d, acd, k, sc, hh, h1, h2, h3, h4⟩
+
+theorem u2f_binding (env : Prog.Env) (o : AttObj) (h : Bytes) (res : Result)
+    (hr : Prog.run env (verifyU2F o h) = some res) :
+    ∃ der c d acd alg crv x y, res.x5c = [der] ∧ env.answer (.x509Parse der) = .cert c ∧
+      attestedAuthData o = some (d, acd) ∧ credentialKey acd = some (.ec2 alg crv x y) ∧
+      X509Sig.Checked env der c.key (Cose.algX509 alg) (u2fMessage d.rpIdHash h acd.credentialId x y) (getSignature o.stmt) := by
+  obtain ⟨der, c, d, acd, alg, crv, x, y, hc, rfl, h1, h2, h3⟩ := u2f_core env o h res hr
+  exact ⟨der, c, d, acd, alg, crv, x, y, rfl, certs_parsed env _ _ hc (der, c) (List.mem_cons_self ..), h1, h2, h3⟩
+
+theorem androidKey_binding (env : Prog.Env) (o : AttObj) (h : Bytes) (res : Result)
+    (hr : Prog.run env (verifyAndroidKey o h) = some res) :
+    ∃ der c rest, res.x5c = der :: rest ∧ env.answer (.x509Parse der) = .cert c ∧
+      X509Sig.Checked env der c.key (Cose.algX509 (getAlgorithm o.stmt)) (o.authData ++ h) (getSignature o.stmt) := by
+  obtain ⟨der, c, rest, hc, rfl, hs⟩ := androidKey_core env o h res hr
+  exact ⟨der, c, _, rfl, certs_parsed env _ _ hc (der, c) (List.mem_cons_self ..), hs⟩
+
+theorem tpm_binding (env : Prog.Env) (o : AttObj) (h : Bytes) (res : Result)
+    (hr : Prog.run env (verifyTPM o h) = some res) :
+    ∃ der c rest ciRaw ci ciEnc, res.x5c = der :: rest ∧ env.answer (.x509Parse der) = .cert c ∧
+      stmtBytes o.stmt "certInfo" = some ciRaw ∧
+      Tpm2.certInfo (Prog.run env askHashes) ciRaw = some ci ∧
+      env.answer (.hash (Cose.algHash (getAlgorithm o.stmt)) (o.authData ++ h)) = .bytes ci.extraData ∧
+      ci.encoded = some ciEnc ∧
+      X509Sig.Checked env der c.key (Cose.algX509 (getAlgorithm o.stmt)) ciEnc (getSignature o.stmt) := by
+  obtain ⟨der, c, rest, ciRaw, ci, ciEnc, hc, rfl, h1, h2, h3, h4, h5⟩ := tpm_core env o h res hr
+  exact ⟨der, c, _, ciRaw, ci, ciEnc, rfl, certs_parsed env _ _ hc (der, c) (List.mem_cons_self ..), h1, h2, h3, h4, h5⟩
 
 theorem apple_binding (env : Prog.Env) (o : AttObj) (h : Bytes) (res : Result)
     (hr : Prog.run env (verifyApple o h) = some res) :
@@ -536,8 +539,8 @@ theorem packed_x5c_binds (env : Prog.Env) (hb : SigBinds env) (o o' : AttObj) (h
   rw [hs] at hc' hsig'
   have e := hc.symm.trans hc'
   simp only [Certs.ok.injEq, List.cons.injEq, Prod.mk.injEq] at e
-  obtain ⟨⟨rfl, -⟩, -⟩ := e
-  exact concat_hash_inj _ _ _ _ hl (hb.1 _ _ _ _ _ hsig hsig')
+  obtain ⟨⟨rfl, rfl⟩, -⟩ := e
+  exact concat_hash_inj _ _ _ _ hl (X509SigLemmas.checked_binds hb hsig hsig')
 
 theorem verifyParams_congr (k k' : Cose.Key) (ha : k.alg = k'.alg) (hm : k.material = k'.material) :
     Cose.verifyParams k = Cose.verifyParams k' := by
@@ -586,8 +589,8 @@ theorem androidKey_binds (env : Prog.Env) (hb : SigBinds env) (o o' : AttObj) (h
   rw [hs] at hc' hsig'
   have e := hc.symm.trans hc'
   simp only [Certs.ok.injEq, List.cons.injEq, Prod.mk.injEq] at e
-  obtain ⟨⟨rfl, -⟩, -⟩ := e
-  exact concat_hash_inj _ _ _ _ hl (hb.1 _ _ _ _ _ hsig hsig')
+  obtain ⟨⟨rfl, rfl⟩, -⟩ := e
+  exact concat_hash_inj _ _ _ _ hl (X509SigLemmas.checked_binds hb hsig hsig')
 
 open Spec.Att in
 theorem tpm_binds (env : Prog.Env) (hi : HashInj env) (o o' : AttObj) (h h' : Bytes) (res res' : Result)
@@ -701,11 +704,11 @@ theorem u2f_binds (env : Prog.Env) (hb : SigBinds env) (o o' : AttObj) (h h' : B
   rw [hs] at hc' h3'
   have ec := hc.symm.trans hc'
   simp only [Certs.ok.injEq, List.cons.injEq, Prod.mk.injEq] at ec
-  obtain ⟨⟨rfl, -⟩, -⟩ := ec
+  obtain ⟨⟨rfl, rfl⟩, -⟩ := ec
   refine ⟨d, acd, alg, crv, x, y, d', acd', alg', crv', x', y', h1, h2, h1', h2', fun ha => ?_⟩
   rw [← ha] at h3'
   exact u2fMessage_inj _ _ _ _ _ _ _ _ _ _
-    ((attested_rpIdHash_length _ _ _ h1).trans (attested_rpIdHash_length _ _ _ h1').symm) hl (hb.1 _ _ _ _ _ h3 h3')
+    ((attested_rpIdHash_length _ _ _ h1).trans (attested_rpIdHash_length _ _ _ h1').symm) hl (X509SigLemmas.checked_binds hb h3 h3')
 
 /-! ### non-vacuity of the idealised hypotheses -/
 
